@@ -491,6 +491,17 @@ def card_reports(U, snap):
             continue
         errs = [e for e in Validation(root).errors
                 if getattr(e.validation_id, "name", str(e.validation_id)) in _CARD_ISSUE.values()]
+        if kind_of(root) == "doc":
+            # Document.validate() is the same validation through another door: the same issues,
+            # bound to the objects of this document
+            via = [e for e in root.validate().errors
+                   if getattr(e.validation_id, "name", str(e.validation_id)) in _CARD_ISSUE.values()]
+            key = lambda e: (U.index(e.obj) if U.index(e.obj) is not None else -1,
+                             getattr(e.validation_id, "name", ""))
+            if sorted(map(key, via)) != sorted(map(key, errs)):
+                return ("card.report-exact", "obj#%d.validate() reports the cardinality issues %r, "
+                        "Validation(obj#%d) reports %r" % (r, sorted(map(key, via)), r,
+                                                           sorted(map(key, errs))))
         # a Validation the caller keeps, runs again after every edit and asks per object
         # (validation[obj]) must say the same as a fresh one
         kept = U.kept_card_vals.get(r)
